@@ -22,8 +22,11 @@ def run(chk):
         chk.notes.append("effect/allocation contracts (b) not built yet")
 
     base_to_dense_cost(chk)
+    entry_point_delegation(chk)
 
     def replayer(ob):
+        if (ob.witness or {}).get("engine") == "direct":
+            return ob.witness
         if (ob.witness or {}).get("engine") == "TODENSE":
             return to_dense_replay()
         if (ob.witness or {}).get("engine") == "TAB":
@@ -34,6 +37,62 @@ def run(chk):
         from vcgen import cex
         return cex.replay(ob.witness)
     return replayer
+
+
+def entry_point_delegation(chk):
+    """sqrt / isqrt have no structural rules of their own: the statement's 'every linear-algebra function that has a structural rule for an operator kind ... uses it' holds for
+    them only because their single rule hands the operator, unchanged, to `pow` (the generic function that owns the Kronecker / Diagonal / Identity / ScalarMul / BlockDiag rules).
+    Contract on the real rule bodies, decided by running them against recording stubs of `pow` and `apply_unary`: for every operand kind, annotation placement and algorithm
+    argument, exactly one call pow(A, +-1/2, alg) with A the operand itself and alg the caller's algorithm (or the default), and no direct call of the generic apply_unary."""
+    import time
+    import numpy as np
+    import cola
+    import cola.linalg.unary.unary as U
+    from cola.ops import operators as O
+    from cola.linalg.algorithm_base import Auto
+    from vcgen.core import DISCHARGED, FAILED, Ob
+    t0 = time.time()
+    d2, d3 = np.eye(2) * 2.0, np.eye(3) * 3.0
+    mk = {
+        "Kronecker": lambda: O.Kronecker(O.Dense(d2), O.Dense(d3)),
+        "Kronecker of PSD factors": lambda: O.Kronecker(cola.PSD(O.Dense(d2)), cola.PSD(O.Dense(d3))),
+        "PSD(Kronecker)": lambda: cola.PSD(O.Kronecker(O.Dense(d2), O.Dense(d3))),
+        "SelfAdjoint(Kronecker)": lambda: cola.SelfAdjoint(O.Kronecker(O.Dense(d2), O.Dense(d3))),
+        "BlockDiag of PSD blocks": lambda: O.BlockDiag(cola.PSD(O.Dense(d2)), cola.PSD(O.Dense(d3)), multiplicities=[2, 1]),
+        "PSD(Diagonal)": lambda: cola.PSD(O.Diagonal(np.array([1.0, 2.0]))),
+        "Diagonal": lambda: O.Diagonal(np.array([1.0, 2.0])),
+        "Identity": lambda: O.Identity((3, 3), np.float64),
+        "ScalarMul": lambda: O.ScalarMul(2.0, (3, 3), np.float64),
+    }
+    algs = [("algorithm omitted", None), ("Auto()", Auto()), ("Eigh()", U.Eigh()), ("Eig()", U.Eig())]
+    saved = (U.pow, U.apply_unary)
+    try:
+        for fname, expo in (("sqrt", 0.5), ("isqrt", -0.5)):
+            chk.under_contract(f"cola.linalg.unary.unary.{fname}")
+            for kname, make in mk.items():
+                for an, a in algs:
+                    calls = []
+                    U.pow = lambda A, alpha, alg=None, _c=calls: (_c.append(("pow", A, alpha, alg)) or "R")
+                    U.apply_unary = lambda f, A, alg=None, _c=calls: (_c.append(("apply_unary", A, None, alg)) or "R")
+                    A = make()
+                    fn = getattr(U, fname)
+                    try:
+                        fn(A) if a is None else fn(A, a)
+                        err = None
+                    except Exception as e:
+                        err = f"raises {type(e).__name__}: {e}"
+                    ok = err is None and len(calls) == 1 and calls[0][0] == "pow" and calls[0][1] is A and float(calls[0][2]) == expo and (calls[0][3] is a if a is not None else isinstance(calls[0][3], Auto))
+                    obs = err or "; ".join(f"{c[0]}({'A' if c[1] is A else type(c[1]).__name__}, {c[2]}, {type(c[3]).__name__})" for c in calls) or "no call"
+                    ob = Ob(key=f"C19/{fname}({kname}, {an}) hands the operand to pow, which owns the structural rules", fn=f"cola.linalg.unary.unary.{fname}",
+                            clause=f"exactly one call pow(A, {expo}, alg); no direct call of the generic apply_unary", engine="TAB", status=DISCHARGED if ok else FAILED,
+                            backend="real rule body against recording stubs of pow / apply_unary", secs=0.0, detail=obs)
+                    if not ok:
+                        ob.witness = dict(engine="direct", failing_input_found=True, input=f"{fname}({kname}, {an})", observed=obs,
+                                          expected=f"pow(A, {expo}, alg): the structural rule of pow for this kind is then selected (C19 a); a direct apply_unary densifies the operator")
+                    chk.add(ob)
+    finally:
+        U.pow, U.apply_unary = saved
+    chk.extra["entry_point_delegation_s"] = round(time.time() - t0, 2)
 
 
 def base_to_dense_cost(chk):
